@@ -98,6 +98,7 @@ type realWorld struct {
 	cancel  context.CancelFunc
 	handler http.Handler
 	token   string
+	store   *memStore
 }
 
 func newRealWorld(t fataler, defs *definition.PipelinesDef, killTimeout time.Duration) *realWorld {
@@ -107,6 +108,7 @@ func newRealWorld(t fataler, defs *definition.PipelinesDef, killTimeout time.Dur
 		t.Fatalf("output store: %v", err)
 	}
 	ctx, cancel := context.WithCancel(context.Background())
+	ms := &memStore{}
 	pr, err := prunner.NewPipelineRunner(ctx, defs, func(j *prunner.PipelineJob) taskctl.Runner {
 		opts := []taskctl.Opts{taskctl.WithEnv(variables.FromMap(j.Env))}
 		if killTimeout > 0 {
@@ -119,7 +121,7 @@ func newRealWorld(t fataler, defs *definition.PipelinesDef, killTimeout time.Dur
 		tr.Stdout = io.Discard
 		tr.Stderr = io.Discard
 		return tr
-	}, &memStore{}, out)
+	}, ms, out)
 	if err != nil {
 		cancel()
 		t.Fatalf("NewPipelineRunner: %v", err)
@@ -127,7 +129,7 @@ func newRealWorld(t fataler, defs *definition.PipelinesDef, killTimeout time.Dur
 	pr.ShutdownPollInterval = 5 * time.Millisecond
 	auth := jwtauth.New("HS256", []byte("procs-secret-0123456789"), nil)
 	_, tok, _ := auth.Encode(map[string]interface{}{"sub": "procs"})
-	w := &realWorld{pr: pr, out: out, dir: dir, cancel: cancel, token: tok}
+	w := &realWorld{pr: pr, out: out, dir: dir, cancel: cancel, token: tok, store: ms}
 	w.handler = server.NewServer(pr, out, func(h http.Handler) http.Handler { return h }, auth, false)
 	return w
 }
